@@ -83,6 +83,32 @@ pub fn link(name: &str, materials: Artifacts, products: Artifacts) -> LinkMetada
         .unwrap()
 }
 
+/// Three links for the leaf-edit sweeps: one with every member filled (paths with separators of
+/// both kinds, mixed case, a non-ASCII letter), one of a failed command with an empty (not
+/// absent) environment, one with nothing optional in it.
+pub fn sample_links(step: &str) -> Vec<(&'static str, LinkMetadata)> {
+    let rich = {
+        let mut l = link(step, arts(&[("src/a.c", 1), ("Src\\b.c", 3)]), arts(&[("out/p", 2), ("caf\u{e9}/menu", 4)]));
+        l.env = Some([("workdir".to_string(), "/w/Build".to_string()), ("empty".to_string(), String::new())].into_iter().collect());
+        l.byproducts = ByProducts::new().set_return_value(0).set_stdout("Done\n".to_string()).set_stderr(String::new());
+        l.command = vec!["make".to_string(), "out/p".to_string()].into();
+        l
+    };
+    let failed = {
+        let mut l = rich.clone();
+        l.byproducts = ByProducts::new().set_return_value(-1);
+        l.env = Some(Default::default());
+        l
+    };
+    let bare = {
+        let mut l = link(step, arts(&[]), arts(&[("p", 2)]));
+        l.byproducts = ByProducts::new();
+        l.command = Vec::<String>::new().into();
+        l
+    };
+    vec![("rich", rich), ("return-value -1, empty environment", failed), ("bare: no environment, no byproducts, no command", bare)]
+}
+
 pub fn sign(meta: MetadataWrapper, signers: &[&Key]) -> Metablock {
     let ks: Vec<&in_toto::crypto::PrivateKey> =
         signers.iter().map(|k| &k.private).collect();
